@@ -16,6 +16,8 @@ import (
 	"sync"
 
 	rtcm "github.com/goblimey/go-ntrip/rtcm/handler"
+
+	"github.com/goblimey/go-ntrip/verifhook"
 )
 
 // CircularQueue holds a limited number of RTCM messages.  If a
@@ -67,6 +69,7 @@ func (cb *CircularQueue) Add(message rtcm.Message) {
 	// Update the unique index.  It's an int and may be only 32 bits
 	// so if this is called many times the index will eventually overflow.
 	cb.NextIndex++
+	verifhook.At("cq.add.locked", len(cb.Items), cb.NextIndex)
 }
 
 // GetMessages gets the items in the circular queue as a slice,
@@ -86,6 +89,7 @@ func (cb *CircularQueue) GetMessages() []rtcm.Message {
 		}
 	}
 
+	verifhook.At("cq.get.locked", len(result))
 	return result
 }
 
